@@ -27,6 +27,26 @@ for f in kf:
         rows.append("| %s | `%s` | %s | %s |" % (f["property"], f["key"], f["what"].replace("|", "\\|"), f.get("failing_input", "").replace("|", "\\|")))
 put("known-table", "\n".join(rows))
 
+import importlib, sys
+sys.path.insert(0, H)
+try:
+    from stixmon import import_stix2
+    import_stix2()
+    rows = ["| check | level | workload | cases quick | cases thorough | evidence of the last run here (tier, evaluations, distinct non-trivial, library lines reached) |", "|---|---|---|---|---|---|"]
+    for n in range(1, 21):
+        pid = "C%02d" % n
+        mod = importlib.import_module("stixmon.checks.c%02d" % n)
+        try:
+            ev = json.load(open(os.path.join(H, "evidence", pid + ".json")))
+            evs = "%s, %d, %d, %s" % (ev["tier"], ev["coverage"]["evaluations"], ev["coverage"]["distinct_nontrivial"], ev["coverage"].get("library_reach", {}).get("lines_reached", "-"))
+        except Exception:
+            evs = "-"
+        for k, wl in enumerate(mod.WORKLOADS):
+            rows.append("| %s | %s | %s | %s | %s | %s |" % (pid if k == 0 else "", mod.LEVEL if k == 0 else "", wl.name, wl.size("quick"), wl.size("thorough"), evs if k == 0 else ""))
+    put("workload-table", "\n".join(rows))
+except Exception as e:
+    print("workload table not regenerated:", repr(e))
+
 rows = ["| seed | property | what it needs to manifest | first result | caught by (now) | strengthening |", "|---|---|---|---|---|---|"]
 n = miss = 0
 for mp in sorted(glob.glob(os.path.join(H, "seeded", "*", "meta.json"))):
